@@ -27,11 +27,13 @@ pub struct Space {
     pub len: u64,
     pub device: Option<&'static str>,
     pub core: Core,
+    /// number of equal-sized blocks of the index space that are distinct addressing forms
+    pub subforms: u64,
     pub get: Box<dyn Fn(u64) -> Case + Sync + Send>,
 }
 
 fn sp(name: &str, len: u64, get: impl Fn(u64) -> Case + Sync + Send + 'static) -> Space {
-    Space { name: name.to_string(), len, device: None, core: Core::Full, get: Box::new(get) }
+    Space { name: name.to_string(), len, device: None, core: Core::Full, subforms: 1, get: Box::new(get) }
 }
 
 fn case(m: &str, ops: Vec<Opd>) -> Case {
@@ -108,7 +110,7 @@ pub fn spaces(thorough: bool, seed: u64) -> Vec<Space> {
     }
     v.push(sp("movw", 256, |i| case("movw", vec![R(2 * (i / 16) as u8), R(2 * (i % 16) as u8)])));
     for m in ["ld", "st"] {
-        v.push(sp(m, 9 * 32, move |i| {
+        let mut s = sp(m, 9 * 32, move |i| {
             let (p, mo) = PTR_FORMS[(i / 32) as usize];
             let r = R((i % 32) as u8);
             if m == "ld" {
@@ -116,10 +118,12 @@ pub fn spaces(thorough: bool, seed: u64) -> Vec<Space> {
             } else {
                 case(m, vec![P(p, mo), r])
             }
-        }));
+        });
+        s.subforms = 9;
+        v.push(s);
     }
     for m in ["ldd", "std"] {
-        v.push(sp(m, 2 * 64 * 32, move |i| {
+        let mut s = sp(m, 2 * 64 * 32, move |i| {
             let p = if i / 2048 == 0 { Ptr::Y } else { Ptr::Z };
             let q = Q(p, ((i / 32) % 64) as i64);
             let r = R((i % 32) as u8);
@@ -128,12 +132,16 @@ pub fn spaces(thorough: bool, seed: u64) -> Vec<Space> {
             } else {
                 case(m, vec![q, r])
             }
-        }));
+        });
+        s.subforms = 2;
+        v.push(s);
     }
     for m in ["lpm", "elpm"] {
-        v.push(sp(&format!("{} Rd,Z[+]", m), 64, move |i| {
+        let mut s = sp(&format!("{} Rd,Z[+]", m), 64, move |i| {
             case(m, vec![R((i % 32) as u8), P(Ptr::Z, if i / 32 == 0 { PMode::Plain } else { PMode::PostInc })])
-        }));
+        });
+        s.subforms = 2;
+        v.push(s);
     }
     for (m, _) in isa::NO_OPERAND {
         let m = m.to_string();
